@@ -48,7 +48,11 @@ def fr(vec, e):
 
 
 def replay(rec):
-    """rec: one exported VVExact behaviour (+ "workdir", "engine_cls": basic|langevin|xl)."""
+    """rec: one exported VVExact behaviour (+ "workdir", "engine_cls": basic|langevin|xl).
+    Optional run variants (NVE only):
+      rec["cad"]   = {"data": n, "vec": n, "print": n, "xyz": n}    output cadences (default all streams every step)
+      rec["mates"] = [behaviours with the same np, k, g]            run as one batch; rec["molid"] = rows to write
+      rec["com"]   = [mode, stride], rec["shift"] = [dx, dy, dz]    periodic COM removal on a geometry away from the origin"""
     from harness import common
 
     common.quiet_stdio()
@@ -62,17 +66,23 @@ def replay(rec):
     from seqm.Molecule import Molecule
     from seqm.seqm_functions.constants import Constants
 
-    h0 = rec["hist"][0]
-    x0 = torch.tensor([[[float(c) for c in p] for p in h0["x"]]], dtype=torch.float64)
-    v0 = torch.tensor([[[float(c) for c in p] for p in h0["v"]]], dtype=torch.float64)
-    species = torch.ones(1, npart, dtype=torch.int64)
+    rows = [rec] + list(rec.get("mates", []))
+    nb = len(rows)
+    shift = torch.tensor(rec.get("shift", [0.0, 0.0, 0.0]), dtype=torch.float64)
+    x0 = torch.tensor([[[float(c) for c in p] for p in r["hist"][0]["x"]] for r in rows], dtype=torch.float64) + shift
+    v0 = torch.tensor([[[float(c) for c in p] for p in r["hist"][0]["v"]] for r in rows], dtype=torch.float64)
+    species = torch.ones(nb, npart, dtype=torch.int64)
     mol = Molecule(Constants(), params, x0.clone(), species, charges=npart % 2)  # even electron count
-    masses = torch.tensor(rec["m"], dtype=torch.float64).reshape(1, npart, 1)
+    masses = torch.tensor([r["m"] for r in rows], dtype=torch.float64).reshape(nb, npart, 1)
     mol.mass = masses.clone()
     mol.mass_inverse = 1.0 / masses
     mol.velocities = v0.clone()
     steps = len(rec["hist"]) - 1
-    out = {"molid": [0], "prefix": os.path.join(wd, "md"), "print every": 0, "checkpoint every": 0, "xyz": 0, "h5": {"data": 1, "coordinates": 1, "velocities": 1, "forces": 1}}
+    cad = rec.get("cad") or {}
+    molid = list(rec.get("molid", [0]))
+    vec = int(cad.get("vec", 1))
+    out = {"molid": molid, "prefix": os.path.join(wd, "md"), "print every": int(cad.get("print", 0)), "checkpoint every": 0, "xyz": int(cad.get("xyz", 0)),
+           "h5": {"data": int(cad.get("data", 1)), "coordinates": vec, "velocities": vec, "forces": vec}}
     eng = rec.get("engine_cls", "basic" if rec["engine"] == "nve" else "langevin")
     common_kw = dict(seqm_parameters=params, timestep=0.5, Temp=0.0, output=out)
     calls = {"q": 0}
@@ -104,16 +114,58 @@ def replay(rec):
             return o
 
         torch.randn_like = randn_like
-    md.run(mol, steps=steps)
-    res = {"draws": calls["q"], "n_dof": float(md.n_dof)}
-    with h5py.File(os.path.join(wd, "md.0.h5"), "r") as h5:
-        res["x"] = h5["coordinates/values"][()].tolist()
-        res["v"] = h5["velocities/values"][()].tolist()
-        res["f"] = h5["forces/values"][()].tolist()
-        res["Ek"] = h5["data/thermo/Ek"][()].tolist()
-        res["Ep"] = h5["data/thermo/Ep"][()].tolist()
-        res["T"] = h5["data/thermo/T"][()].tolist()
-        res["labels"] = {k: h5[k + "/steps"][()].tolist() for k in ("coordinates", "velocities", "forces", "data")}
+    rk = {}
+    comlog = []
+    phase = []
+    if rec.get("com"):
+        rk["remove_com"] = (rec["com"][0], int(rec["com"][1]))
+        orig_zero = md._zero_com
+
+        def moments(molecule):
+            m = molecule.mass
+            P = (m * molecule.velocities).sum(dim=1)
+            rc = (m * molecule.coordinates).sum(dim=1, keepdim=True) / m.sum(dim=1, keepdim=True)
+            Lc = (m * torch.linalg.cross(molecule.coordinates - rc, molecule.velocities, dim=2)).sum(dim=1)
+            Lo = (m * torch.linalg.cross(molecule.coordinates, molecule.velocities, dim=2)).sum(dim=1)
+            return [float(c) for c in P[0]], [float(c) for c in Lc[0]], [float(c) for c in Lo[0]]
+
+        def zero_com(molecule, *a, **k):
+            ek0 = float(md._kinetic_energy(molecule)[0])
+            r = orig_zero(molecule, *a, **k)
+            P, Lc, Lo = moments(molecule)
+            comlog.append({"after_steps": len(phase), "P": P, "Lc": Lc, "ek0": ek0, "ek1": float(md._kinetic_energy(molecule)[0]), "angular": bool(k.get("remove_angular", a[0] if a else True))})
+            return r
+
+        md._zero_com = zero_com
+        orig_step = md._do_integrator_step
+
+        def do_step(i, molecule, *a, **k):
+            r = orig_step(i, molecule, *a, **k)
+            P, Lc, Lo = moments(molecule)
+            phase.append({"i": i, "P": P, "Lc": Lc, "Lo": Lo})
+            return r
+
+        md._do_integrator_step = do_step
+    md.run(mol, steps=steps, **rk)
+    res = {"draws": calls["q"], "n_dof": float(md.n_dof.reshape(-1)[0]) if torch.is_tensor(md.n_dof) else float(md.n_dof), "files": {}, "com": comlog, "phase": phase}
+    scale = float((masses[0] * (v0[0].abs() + 1e-3)).sum())
+    res["pscale"] = scale
+    res["lscale"] = float((masses[0] * (x0[0].abs().sum(dim=1, keepdim=True) + 1.0) * (v0[0].abs().sum(dim=1, keepdim=True) + 1e-3)).sum())
+    for mid in molid:
+        f = {}
+        with h5py.File(os.path.join(wd, "md.%d.h5" % mid), "r") as h5:
+            f["x"] = (h5["coordinates/values"][()] - shift.numpy()).tolist()
+            f["v"] = h5["velocities/values"][()].tolist()
+            f["f"] = h5["forces/values"][()].tolist()
+            f["Ek"] = h5["data/thermo/Ek"][()].tolist()
+            f["Ep"] = h5["data/thermo/Ep"][()].tolist()
+            f["T"] = h5["data/thermo/T"][()].tolist()
+            f["labels"] = {k: h5[k + "/steps"][()].tolist() for k in ("coordinates", "velocities", "forces", "data")}
+        xyzp = os.path.join(wd, "md.%d.xyz" % mid)
+        if os.path.exists(xyzp):
+            f["xyz"] = open(xyzp).read()
+        res["files"][str(mid)] = f
+    res.update(res["files"][str(molid[0])])
     return res
 
 
@@ -138,29 +190,98 @@ def expected(rec):
     return out
 
 
-def compare(rec, res, rtol=1e-11):
+def _close(a, b, rtol=1e-11):
+    a, b = np.asarray(a, dtype=float), np.asarray(b, dtype=float)
+    return a.shape == b.shape and bool(np.all(np.abs(a - b) <= rtol * (1.0 + np.abs(b))))
+
+
+def compare_file(rec, f, n_dof, cad=None, rtol=1e-11):
+    """Rows of one molecule's HDF5 file against the exact behaviour `rec`, each row for its own step label."""
     exp = expected(rec)
     bad = []
-
-    def close(a, b):
-        a, b = np.asarray(a, dtype=float), np.asarray(b, dtype=float)
-        return a.shape == b.shape and bool(np.all(np.abs(a - b) <= rtol * (1.0 + np.abs(b))))
-
     steps = len(rec["hist"]) - 1
-    for k in ("coordinates", "velocities", "forces", "data"):
-        if res["labels"][k] != list(range(steps + 1)):
-            bad.append({"what": "labels", "stream": k, "got": res["labels"][k]})
-    for s in range(steps + 1):
+    cad = cad or {}
+    want = {k: [s for s in range(steps + 1) if s % int(cad.get("vec", 1)) == 0] for k in ("coordinates", "velocities", "forces")}
+    want["data"] = [s for s in range(steps + 1) if s % int(cad.get("data", 1)) == 0]
+    for k in want:
+        if f["labels"][k] != want[k]:
+            bad.append({"what": "labels", "stream": k, "got": f["labels"][k], "expected": want[k]})
+    if bad:
+        return bad
+    for n, s in enumerate(want["coordinates"]):
         for name in ("x", "v", "f"):
-            if not close(res[name][s], exp[name][s]):
-                bad.append({"what": name, "step": s, "got": res[name][s], "exact": exp[name][s]})
-        if not close(res["Ek"][s], exp["Ek"][s]):
-            bad.append({"what": "Ek", "step": s, "got": res["Ek"][s], "exact": exp["Ek"][s]})
-        if not close(res["Ep"][s], exp["Ep"][s]):
-            bad.append({"what": "Ep", "step": s, "got": res["Ep"][s], "exact": exp["Ep"][s]})
-        tex = exp["Ek"][s] * TEMP / (0.5 * res["n_dof"])
-        if not close(res["T"][s], tex):
-            bad.append({"what": "T", "step": s, "got": res["T"][s], "exact": tex})
+            if not _close(f[name][n], exp[name][s], rtol):
+                bad.append({"what": name, "step": s, "got": f[name][n], "exact": exp[name][s]})
+    for n, s in enumerate(want["data"]):
+        if not _close(f["Ek"][n], exp["Ek"][s], rtol):
+            bad.append({"what": "Ek", "step": s, "got": f["Ek"][n], "exact": exp["Ek"][s]})
+        if not _close(f["Ep"][n], exp["Ep"][s], rtol):
+            bad.append({"what": "Ep", "step": s, "got": f["Ep"][n], "exact": exp["Ep"][s]})
+        tex = exp["Ek"][s] * TEMP / (0.5 * n_dof)
+        if not _close(f["T"][n], tex, rtol):
+            bad.append({"what": "T", "step": s, "got": f["T"][n], "exact": tex})
+    if "xyz" in f:
+        # XYZ comment line: step label and total energy of the frame's own phase point
+        import re
+
+        frames = [(int(a), float(b)) for a, b in re.findall(r"step:\s*(\d+)\s+E_total\s*=\s*([-+0-9.eE]+)", f["xyz"])]
+        k = int(cad.get("xyz", 0))
+        labels = [0] + [s for s in range(1, steps + 1) if k and s % k == 0]
+        if [a for a, _ in frames] != labels:
+            bad.append({"what": "xyz frame labels", "got": [a for a, _ in frames], "expected": labels})
+        else:
+            for s, e in frames:
+                etot = exp["Ek"][s] + exp["Ep"][s]
+                if abs(e - etot) > 1.0e-9 + 1e-11 * abs(etot):
+                    bad.append({"what": "xyz E_total", "step": s, "got": e, "exact": etot})
+    return bad
+
+
+def compare(rec, res, rtol=1e-11):
+    bad = []
+    rows = [rec] + list(rec.get("mates", []))
+    for mid in rec.get("molid", [0]):
+        for b in compare_file(rows[mid], res["files"][str(mid)], res["n_dof"], rec.get("cad"), rtol):
+            b["molid"] = mid
+            bad.append(b)
+    steps = len(rec["hist"]) - 1
     if rec["engine"] != "nve" and res["draws"] != 2 * steps:
         bad.append({"what": "noise draws", "got": res["draws"], "expected": 2 * steps})
+    return bad[:6]
+
+
+def compare_com(rec, res, tol=1e-12):
+    """COM-removal variant (springs only, no field): momenta are constants of the motion between removals
+    and vanish right after one; a removal keeps the kinetic energy."""
+    bad = []
+    mode, stride = rec["com"][0], int(rec["com"][1])
+    ps, ls = res["pscale"], res["lscale"]
+    steps = len(rec["hist"]) - 1
+    want = [i + 1 for i in range(steps) if i % stride == 0]
+    if [c["after_steps"] for c in res["com"]] != want:
+        bad.append({"what": "com schedule", "got": [c["after_steps"] for c in res["com"]], "expected": want})
+    for c in res["com"]:
+        if max(abs(x) for x in c["P"]) > tol * ps:
+            bad.append({"what": "linear momentum after removal", "got": c["P"], "scale": ps})
+        if mode == "angular" and max(abs(x) for x in c["Lc"]) > 1e3 * tol * ls:
+            bad.append({"what": "angular momentum after removal", "got": c["Lc"], "scale": ls})
+        if c["angular"] != (mode == "angular"):
+            bad.append({"what": "com mode", "got": c["angular"]})
+        if abs(c["ek1"] - c["ek0"]) > 1e-11 * (abs(c["ek0"]) + 1e-300):
+            bad.append({"what": "kinetic energy changed by removal", "before": c["ek0"], "after": c["ek1"]})
+    # phase[n] is taken right after integrator step i=n (before that iteration's removal)
+    removed_before = {a for a in want}  # removal happened after `a` steps, i.e. before phase index a
+    for n in range(1, len(res["phase"])):
+        a, b = res["phase"][n - 1], res["phase"][n]
+        if n in removed_before:
+            # the step started from the phase point right after a removal: P = 0 (and L = 0) must persist
+            if max(abs(x) for x in b["P"]) > 10 * tol * ps:
+                bad.append({"what": "linear momentum not conserved after removal", "step": n, "got": b["P"]})
+            if mode == "angular" and max(abs(x) for x in b["Lc"]) > 1e4 * tol * ls:
+                bad.append({"what": "angular momentum not conserved after removal", "step": n, "got": b["Lc"]})
+        else:
+            if max(abs(x - y) for x, y in zip(a["P"], b["P"])) > 10 * tol * ps:
+                bad.append({"what": "linear momentum not conserved", "step": n})
+            if max(abs(x - y) for x, y in zip(a["Lo"], b["Lo"])) > 1e4 * tol * ls:
+                bad.append({"what": "angular momentum not conserved", "step": n})
     return bad[:6]
